@@ -10,15 +10,16 @@ Theorem C14_lexer_terminates : forall s : str, lex s <> None.
 Proof. exact LexerProofs.lexer_terminates. Qed.
 
 (* a string literal denotes exactly the characters written between its
-   quotes, in either quote style, for any NUL-free Unicode text *)
+   quotes, in either quote style, for any Unicode text (the character U+0000
+   included: it is an ordinary character inside a literal) *)
 Theorem C14_string_roundtrip : forall (q : N) (s : str),
-  is_quote q = true -> nul_free s = true ->
+  is_quote q = true ->
   lex (quote q s) = Some [mkTok TString s; EOFtok].
 Proof. exact LexerProofs.string_roundtrip. Qed.
 
 (* the same with \n \r \t written as escapes *)
 Theorem C14_string_escapes : forall (q : N) (s : str),
-  is_quote q = true -> nul_free s = true ->
+  is_quote q = true ->
   lex (quote_esc q s) = Some [mkTok TString s; EOFtok].
 Proof. exact LexerProofs.string_escapes. Qed.
 
@@ -40,19 +41,19 @@ Proof. exact LexerProofs.range_literal. Qed.
 
 (* a regexp literal denotes its pattern, backslash taking the next character literally *)
 Theorem C14_regexp_literal : forall s : str,
-  s <> [] -> nul_free s = true ->
+  s <> [] ->
   lex (re_lit s) = Some [mkTok TRegexp s; EOFtok].
 Proof. exact LexerProofs.regexp_literal. Qed.
 
 (* ... plus its i / m flags *)
 Theorem C14_regexp_flag_i : forall s : str,
-  s <> [] -> nul_free s = true ->
+  s <> [] ->
   lex (re_lit s ++ [105]) = Some [mkTok TRegexp (L "(?i)" ++ s); EOFtok].
 Proof. exact LexerProofs.regexp_flag_i. Qed.
 
 (* any other flag letter is rejected *)
 Theorem C14_regexp_bad_flag : forall (s : str) (f : N),
-  s <> [] -> nul_free s = true -> is_letter f = true -> f <> 105 -> f <> 109 ->
+  s <> [] -> is_letter f = true -> f <> 105 -> f <> 109 ->
   lex (re_lit s ++ [f]) = Some [mkTok TIllegal []; EOFtok].
 Proof. exact LexerProofs.regexp_bad_flag. Qed.
 
@@ -76,14 +77,15 @@ Theorem C14_slash_context_table :
      end) slash_context = true.
 Proof. exact LexerProofs.slash_context_table. Qed.
 
-(* inserting white space or a // comment before a token changes nothing *)
+(* inserting white space or a // comment before a token changes nothing; a comment
+   runs to the next newline whatever it contains (U+0000 included) *)
 Theorem C14_leading_layout : forall (ws l : str) (prev : tokty),
   forallb is_whitespace ws = true ->
   next_token (ws ++ l) prev = next_token l prev.
 Proof. exact LexerProofs.leading_layout. Qed.
 
 Theorem C14_leading_comment : forall (body l : str) (prev : tokty),
-  forallb (fun c => negb (c =? 10) && negb (c =? 0)) body = true ->
+  forallb (fun c => negb (c =? 10)) body = true ->
   next_token (47 :: 47 :: body ++ 10 :: l) prev = next_token l prev.
 Proof. exact LexerProofs.leading_comment. Qed.
 
@@ -91,6 +93,25 @@ Proof. exact LexerProofs.leading_comment. Qed.
 Example C14_example_string :
   lex (quote 34 (L "a\b""c")) = Some [mkTok TString (L "a\b""c"); EOFtok].
 Proof. vm_compute. reflexivity. Qed.
+
+(* U+0000 inside a string literal, a regexp literal or a comment is an ordinary character:
+   "a<NUL>b"  is one STRING token,  // c <NUL> d<newline>1  is the INT token 1,
+   /a<NUL>b/  is one REGEXP token; where a token starts U+0000 is still ILLEGAL *)
+Theorem C14_string_with_nul :
+  lex [34; 97; 0; 98; 34] = Some [mkTok TString [97; 0; 98]; EOFtok].
+Proof. exact LexerProofs.string_with_nul. Qed.
+
+Theorem C14_comment_with_nul :
+  lex [47; 47; 32; 99; 32; 0; 32; 100; 10; 49] = Some [mkTok TInt [49]; EOFtok].
+Proof. exact LexerProofs.comment_with_nul. Qed.
+
+Theorem C14_regexp_with_nul :
+  lex [47; 97; 0; 98; 47] = Some [mkTok TRegexp [97; 0; 98]; EOFtok].
+Proof. exact LexerProofs.regexp_with_nul. Qed.
+
+Theorem C14_nul_at_token_start :
+  lex [49; 32; 0; 50] = Some [mkTok TInt [49]; mkTok TIllegal []; mkTok TInt [50]; EOFtok].
+Proof. exact LexerProofs.nul_at_token_start. Qed.
 
 (* ------------------------------------------------------------------ *)
 (* WHOLE TOKEN STREAMS.  Every sequence of tokens the lexer can produce (identifiers, keywords, all
